@@ -1,8 +1,8 @@
 /-
   C04 — the lazily created `prototype` property of ordinary functions over ARBITRARY histories: at every moment the
-  function answers every own-property lookup / define exactly as the eager ordinary function (that had `prototype` from
-  the start) does after the same operations.  (Only the POSITION of `prototype` in the key order may differ: known
-  finding `funcObject:prototype-key-position-depends-on-materialisation`, `lazyPrototype_position_witness`.)
+  function stands for exactly the property LIST (keys in the same order) of the eager ordinary function — `prototype`
+  present from the start — after the same operations.  (Before fcdbd47 the position of `prototype` could differ:
+  `lazyPrototype_position_prefix_witness`.)
 -/
 import GojaModel.C04.FuncLazy
 namespace GojaModel.C04
@@ -44,89 +44,37 @@ def eagerStep [DecidableEq V] (undef : V) (ext : Bool) (l : List (Key × Stored 
 theorem addProto_ext (protoProp : Stored V) (f : FuncLazy V) (k : Key) : (f.addProto protoProp k).ext = f.ext := by
   unfold FuncLazy.addProto; split <;> rfl
 
-theorem addProto_wf (protoProp : Stored V) (f : FuncLazy V) (k : Key) (h : f.WF) : (f.addProto protoProp k).WF := by
-  unfold FuncLazy.addProto
-  split
-  · intro hm; simp at hm
-  · exact h
-
-theorem addProto_mat_false (protoProp : Stored V) (f : FuncLazy V) (k : Key) (hm : (f.addProto protoProp k).mat = false) :
-    k ≠ kProto ∧ f.addProto protoProp k = f := by
-  unfold FuncLazy.addProto at hm ⊢
-  split
-  · rename_i hc; simp [hc] at hm
-  · rename_i hc
-    refine ⟨?_, rfl⟩
-    intro hk
-    simp only [if_neg hc] at hm
-    exact hc ⟨hk, hm⟩
-
 theorem funcLazy_step [DecidableEq V] (undef : V) (protoProp : Stored V) (f : FuncLazy V) (hwf : f.WF) (op : FOp V) :
-    LookupEq ((f.step undef protoProp op).eager protoProp) (eagerStep undef f.ext (f.eager protoProp) op)
+    (f.step undef protoProp op).eager protoProp = eagerStep undef f.ext (f.eager protoProp) op
     ∧ (f.step undef protoProp op).WF ∧ (f.step undef protoProp op).ext = f.ext := by
   cases op with
   | getOwn k =>
-    obtain ⟨_, h2, h3, _, _⟩ := funcLazy_refines undef protoProp f hwf k ({ value := none, writable := .notSet, enumerable := .notSet, configurable := .notSet, getter := none, setter := none } : Desc V)
+    obtain ⟨_, h2, h3, _, _⟩ := funcLazyPre_refines undef protoProp f hwf k
+      ({ value := none, writable := .notSet, enumerable := .notSet, configurable := .notSet, getter := none, setter := none } : Desc V)
     refine ⟨?_, h2, ?_⟩
-    · simp only [FuncLazy.step, eagerStep]; rw [h3]; exact fun _ => rfl
+    · simp only [FuncLazy.step, eagerStep]; exact h3
     · simp only [FuncLazy.step, FuncLazy.getOwn]; exact addProto_ext protoProp f k
   | define k d =>
-    obtain ⟨_, h2, h3, h4, h5⟩ := funcLazy_refines undef protoProp f hwf k d
-    have hwf' := addProto_wf protoProp f k hwf
-    have hext' := addProto_ext protoProp f k
+    obtain ⟨_, h2, h3, h4, h5⟩ := funcLazy_define_refines undef protoProp f hwf k d
+    refine ⟨?_, h4, h5⟩
     simp only [FuncLazy.step, eagerStep, ordDefine]
     cases hd : defineOwn undef (lookup (f.eager protoProp) k) d f.ext with
-    | none =>
-      have hfalse : (f.define undef protoProp k d).2 = false := by rw [h4, hd]; rfl
-      -- the define was rejected: the object is `addProto f k`
-      have hres : (f.define undef protoProp k d).1 = f.addProto protoProp k := by
-        unfold FuncLazy.define at hfalse ⊢
-        simp only at hfalse ⊢
-        split
-        · rename_i v hv; rw [hv] at hfalse; simp at hfalse
-        · rfl
-      rw [hres]
-      refine ⟨?_, hwf', hext'⟩
-      have : (f.getOwn protoProp k).2 = f.addProto protoProp k := rfl
-      rw [← this, h3]; exact fun _ => rfl
-    | some v =>
-      refine ⟨(h5 v hd).2, ?_, ?_⟩
-      · unfold FuncLazy.define
-        simp only
-        split
-        · rename_i v' hv'
-          intro hm
-          simp only at hm
-          obtain ⟨hk, hadd⟩ := addProto_mat_false protoProp f k hm
-          simp only
-          rw [lookup_put_other _ _ _ _ (Ne.symm hk)]
-          exact hwf' hm
-        · exact hwf'
-      · unfold FuncLazy.define
-        simp only
-        split
-        · exact hext'
-        · exact hext'
+    | none => exact h3 hd
+    | some v => exact h2 v hd
 
-/-- histories: after ANY sequence of own-property lookups and defines the lazy function answers every lookup as the eager
-ordinary function does after the same operations -/
+/-- histories: after ANY sequence of own-property lookups and defines the lazy function stands for exactly the property
+list of the eager ordinary function after the same operations -/
 theorem funcLazy_run [DecidableEq V] (undef : V) (protoProp : Stored V) (ops : List (FOp V)) :
-    ∀ (f : FuncLazy V) (l : List (Key × Stored V)), f.WF → LookupEq (f.eager protoProp) l →
-      LookupEq ((ops.foldl (FuncLazy.step undef protoProp) f).eager protoProp) (ops.foldl (eagerStep undef f.ext) l)
+    ∀ (f : FuncLazy V), f.WF →
+      (ops.foldl (FuncLazy.step undef protoProp) f).eager protoProp = ops.foldl (eagerStep undef f.ext) (f.eager protoProp)
       ∧ (ops.foldl (FuncLazy.step undef protoProp) f).WF := by
   induction ops with
-  | nil => intro f l h hl; exact ⟨hl, h⟩
+  | nil => intro f h; exact ⟨rfl, h⟩
   | cons op rest ih =>
-    intro f l h hl
+    intro f h
     obtain ⟨h1, h2, h3⟩ := funcLazy_step undef protoProp f h op
-    have hl' : LookupEq ((f.step undef protoProp op).eager protoProp) (eagerStep undef f.ext l op) := by
-      intro k
-      rw [h1 k]
-      cases op with
-      | getOwn k0 => exact hl k
-      | define k0 d => exact ordDefine_lookupEq undef _ _ hl k0 d f.ext k
-    have := ih (f.step undef protoProp op) _ h2 hl'
-    rw [h3] at this
+    have := ih (f.step undef protoProp op) h2
+    rw [h3, h1] at this
     simpa [List.foldl_cons] using this
 
 end GojaModel.C04
